@@ -83,6 +83,17 @@ def householder_steps(A):
     return out
 
 
+
+def _dedupe(cases_):
+    """the same cell can be listed by two enumerations (e.g. a tall shape that the thorough bound also reaches): keep the first."""
+    seen, out_ = set(), []
+    for c in cases_:
+        if c["key"] not in seen:
+            seen.add(c["key"])
+            out_.append(c)
+    return out_
+
+
 def cases(tier, seed):
     S = 4 if tier == "quick" else 6
     rows = 1 if tier == "quick" else 3
@@ -118,7 +129,7 @@ def cases(tier, seed):
     for (m, n) in ((8, 2), (9, 2), (12, 3), (16, 4), (40, 4), (17, 4), (4, 16), (5, 2), (7, 3), (9, 4), (6, 2), (10, 3)):
         for nm in ("nearcol", "negzero_col", "halfdep_top", "halfdep_bot", "twodeps", "depcol1", "allneg", "nearreal", "equalmod"):
             out.append({"key": f"xf/{m}x{n}/{nm}", "kind": "xf", "m": m, "n": n, "cls": "generic", "row": 0, "xf": nm})
-    return out
+    return _dedupe(out)
 
 
 def run_case(case, seed):
@@ -174,7 +185,8 @@ def run_case(case, seed):
     steps = householder_steps(A)
     # a negligible sub-column is harmless only if the whole INPUT column is exactly zero (then it stays exactly zero in any arithmetic);
     # a sub-column that vanishes through cancellation is noise in LAPACK's arithmetic even when this simulation gets an exact 0
-    noisy_step = any((rel <= 1e-10 and A[:, j].any()) for j, (rel, exact) in enumerate(steps))
+    # (measured against the norm of the input column itself: a genuinely tiny column or pivot - graded inputs - is not noise)
+    noisy_step = any((A[:, j].any() and rel * max(O.fro(A), 1e-300) <= 1e-10 * O.fro(A[:, j : j + 1])) for j, (rel, exact) in enumerate(steps))
     tags = {"wide": m < n, "coldef": n - rk, "rank": rk, "lead_def": k - lead_rk, "lead_dep": lead_dep,
             "finding_zone": bool(lead_dep >= 1 or (m < n and k - lead_rk >= 1) or noisy_step), "kind": case["kind"], "m": m, "n": n}
     sv_ = O.svals(A[:, :k]) if k else np.zeros(0)
